@@ -3,12 +3,12 @@ RULE = ("odometer enumeration (no randomness); every case is one program of aws_
         "back by an independent RFC 8949 reader and decoded by the real decoder in 4 access styles.  (a) values: "
         "ints = {uint,negint,tag,array-start,map-start} x {b-1,b,b+1 for b in 0,23,24,255,256,65535,65536,2^32-1,2^32,2^64-1; "
         "2^k-1,2^k,2^k+1 for k<64} x {alone, between two items}; intsweep = the 5 kinds x every argument 0..70000 "
-        "(quick: 0..1100 and 65000..66100); doubles = ~560 boundary doubles (closed under negation and one nextafter step each way) "
+        "(thorough: also 2^32-35000..2^32+35000); doubles = ~540 boundary doubles (closed under negation and one nextafter step each way) "
         "x 3 contexts; dgrid = sign x all 2048 biased exponents x 106 mantissa patterns (quick 22); strings = {bytes,text} x every "
-        "length 0..1200 (quick 0..600) and 13 lengths around 4096/65536/131072 x 4 buffer pre-fill states, popped and skipped; "
-        "simple = bool/null/undefined/break/4 indefinite starts.  (b) programs: seq = every sequence of <= 4 (quick <= 3) calls from a "
-        "22-call alphabet, also re-encoded after aws_cbor_encoder_reset; nest = every ordered tree with <= 5 (quick <= 4) nodes and "
-        "depth <= 3, every labelling with 14 leaf kinds and array/indefinite array/map/indefinite map/tag containers, followed by a "
+        "length 0..2100 (quick 0..600) and 13 lengths around 4096/65536/131072 x 4 buffer pre-fill states, popped and skipped; "
+        "simple = bool/null/undefined/break/4 indefinite starts.  (b) programs: seq = every sequence of <= 5 (quick <= 4) calls from a "
+        "22-call alphabet, also re-encoded after aws_cbor_encoder_reset; nest = every ordered tree with <= 6 nodes and "
+        "depth <= 4 (quick: <= 5 nodes, depth <= 3), every labelling with 14 leaf kinds and array/indefinite array/map/indefinite map/tag containers, followed by a "
         "sentinel, skipped cold and after a peek.  non-trivial = ints/intsweep: argument >= 24 (multi-byte head); doubles/dgrid: the "
         "documented form (integer/single/double) differs from that of a nextafter neighbour, or inf/NaN; strings: length >= 24; "
         "seq: >= 2 calls; nest: root is a container or tag with children; fill = each of the 22 calls issued with exactly 0..14 (0..17) "
@@ -22,7 +22,7 @@ HARNESSES = [
          deadline={"thorough": 300}),
 ]
 ASSUMPTIONS = [
-    "bounds: programs of <= 4 encoder calls from 22 representative calls; nestings of <= 5 nodes, depth <= 3; strings <= 131072 bytes; "
+    "bounds: programs of <= 5 encoder calls from 22 representative calls; nestings of <= 6 nodes, depth <= 4; strings <= 131072 bytes; "
     "doubles: boundary set plus an exponent x mantissa-pattern grid, not all 2^64 bit patterns",
     "reading of cbor.h write_float ('integer/negative/float, order with priority, when the conversion will not cause precision loss', "
     "never half): integer head iff the value is integral and inside the int64 range; else single precision iff the value is exactly "
